@@ -2,8 +2,10 @@ package props
 
 import (
 	"fmt"
+	"os"
 	"path/filepath"
 	"strings"
+	"time"
 
 	"verifharness/internal/fw"
 	"verifharness/internal/gen"
@@ -119,6 +121,9 @@ func runC11(c *fw.Ctx, idx int) fw.Result {
 			res.Fail("rows", "variants on the toPairAlign output did not give one row", files, argv)
 			continue
 		}
+		if qi == 0 && idx%10 == 4 && c.Bin != "" && (s != -1 || e != -1) {
+			c11BinaryWindowSpelling(c, &res, ac, idx, qi, text, s, e, appendSNP)
+		}
 		a, b := model.SortedStrings(mutStrings(m1[qi])), model.SortedStrings(mutStrings(m2[0]))
 		res.Count("pair_relations_checked", 1)
 		if strings.Join(a, "|") != strings.Join(b, "|") {
@@ -177,4 +182,70 @@ func runC11(c *fw.Ctx, idx int) fw.Result {
 		res.Sample = map[string]interface{}{"sam": clipStr(ac.sf.Text, 900), "argv": argv, "observed_sam_variants": clipStr(out1, 500)}
 	}
 	return res
+}
+
+// c11BinaryWindowSpelling runs both commands of the relation through the binary with the window
+// bounds written the way the flag parser also accepts them (octal with a leading zero, hex, an
+// explicit plus sign). Whatever such a spelling is taken to mean, it is the same text for both
+// commands: if both accept it, their mutation lists for the query must agree.
+func c11BinaryWindowSpelling(c *fw.Ctx, res *fw.Result, ac annoCase, idx, qi int, pair string, s, e int, appendSNP bool) {
+	d := filepath.Join(c.Tmp, fmt.Sprintf("c11-spell-%d", idx))
+	os.MkdirAll(d, 0755)
+	defer os.RemoveAll(d)
+	w := func(n, t string) string { p := filepath.Join(d, n); os.WriteFile(p, []byte(t), 0644); return p }
+	kind := fw.Mix(uint64(idx)+1111) % 3
+	sp := func(n int) string {
+		switch kind {
+		case 0:
+			return fmt.Sprintf("0%o", n)
+		case 1:
+			return fmt.Sprintf("0x%x", n)
+		}
+		return fmt.Sprintf("+%d", n)
+	}
+	anno := w("anno."+ac.format, ac.annoTxt)
+	a1 := []string{"sam", "variants", "-s", w("in.sam", ac.sf.Text), "-a", anno}
+	if ac.refFile {
+		a1 = append(a1, "-r", w("ref.fasta", ac.refTxt))
+	}
+	a2 := []string{"variants", "--msa", w("pair.fasta", pair), "-r", ac.sf.RefName, "-a", anno}
+	var win []string
+	if s != -1 {
+		win = append(win, "--start", sp(s))
+	}
+	if e != -1 {
+		win = append(win, "--end", sp(e))
+	}
+	if appendSNP {
+		win = append(win, "--append-snps")
+	}
+	a1, a2 = append(a1, win...), append(a2, win...)
+	b1 := fw.RunBin(c.Bin, a1, nil, nil, d, 40*time.Second)
+	b2 := fw.RunBin(c.Bin, a2, nil, nil, d, 40*time.Second)
+	res.Evals += 2
+	if b1.TimedOut || b2.TimedOut {
+		res.Inconclusive = append(res.Inconclusive, "binary watchdog fired (window spelling)")
+		return
+	}
+	if b1.Exit != 0 || b2.Exit != 0 {
+		res.Count("window_spelling_runs_refused_by_a_command", 1)
+		if (b1.Exit == 0) != (b2.Exit == 0) {
+			res.Count("window_spelling_runs_refused_by_one_command_only", 1)
+		}
+		return
+	}
+	_, m1, ok1 := model.ParseVariantsCSV(string(b1.Stdout))
+	_, m2, ok2 := model.ParseVariantsCSV(string(b2.Stdout))
+	if !ok1 || !ok2 || qi >= len(m1) || len(m2) != 1 {
+		return
+	}
+	res.Count("window_spelling_relations_checked", 1)
+	x, y := model.SortedStrings(mutStrings(m1[qi])), model.SortedStrings(mutStrings(m2[0]))
+	if strings.Join(x, "|") != strings.Join(y, "|") {
+		f := ac.files()
+		f["pair.fasta"] = pair
+		f["binary_sam_variants.csv"] = string(b1.Stdout)
+		f["binary_variants_on_pair.csv"] = string(b2.Stdout)
+		res.Fail("sam-vs-pair:window-spelling", fmt.Sprintf("with the window written as %v both commands succeed but disagree: sam variants gives %v, variants on the toPairAlign pair gives %v", win, x, y), f, a1)
+	}
 }
